@@ -6,7 +6,7 @@ from ..asn import gen, model, der
 from . import variants
 
 CANON = ["DER", "CXER", "UPER", "OER"]
-XFS = ["permute", "reverse", "padint", "default", "dirtybits"]
+XFS = ["permute", "reverse", "padint", "default", "dirtybits", "nansign"]
 
 
 def dirty_unused_bits(tree, rng):
@@ -75,6 +75,13 @@ def run(tier, seed):
                     t2 = der.Encoder(b.mod).tree(t, v)
                     if dirty_unused_bits(t2, rng):
                         vars_.append(("dirty-unused-bits", der.serialize(t2)))
+                rk0 = b.mod.resolve(t).kind
+                if rk0 in ("GeneralizedTime", "UTCTime") and isinstance(v, str):
+                    # every non-DER notation of this very value, one at a time
+                    for form in der.TIME_FORMS:
+                        v2 = der.time_variant(rk0, v, rng, form)
+                        if v2 != v:
+                            vars_.append(("time-form", der.Encoder(b.mod).encode(t, v2)))
                 for fam, vb in vars_:
                     if "unknown-ext" in fam or "cstrtagged" in fam or "indefmix" in fam:
                         continue
